@@ -66,7 +66,7 @@ def _is_ref_key(key):
         if key.startswith("list:"):
             return parse_ty(key[5:]).is_ref
         if key.startswith("dval:"):
-            return parse_ty(key[5:].split("|")[1]).is_ref
+            return parse_ty(key[5:].split("~")[1]).is_ref
     except Exception:
         return False
     return False
@@ -173,8 +173,8 @@ class State:
     # dict contents: domain + values
     def dict_keys(self, d: V):
         kt, vt = dict_tys(d.ty)
-        kk = "ddom:%s|%s" % (kt, vt)
-        vk = "dval:%s|%s" % (kt, vt)
+        kk = "ddom:%s~%s" % (kt, vt)
+        vk = "dval:%s~%s" % (kt, vt)
         return kk, vk, kt, vt
 
     def dict_get(self, d: V):
